@@ -43,6 +43,9 @@ type LinearState struct {
 
 	cachedRules map[string]*Rule
 
+	// cacheMu guards cachedRules.  See IndexedState.
+	cacheMu sync.Mutex
+
 	store Storage
 
 	addHook AddHookFn
@@ -155,7 +158,6 @@ func (s *LinearState) Load(ctx *Context) error {
 
 func (s *LinearState) Add(ctx *Context, id string, x Map) (string, error) {
 	Log(DEBUG, ctx, "LinearState.Add", "state", s.Name, "x", x, "id", id)
-	delete(s.cachedRules, id)
 	timer := NewTimer(ctx, "LinearState.Add")
 	defer timer.Stop()
 
@@ -191,6 +193,8 @@ func (s *LinearState) Add(ctx *Context, id string, x Map) (string, error) {
 		}
 	}
 	s.Facts[id] = RawFact{m, bs}
+	// Whatever was cached for this id is stale now.
+	s.uncacheRule(id)
 	s.sunlock(ctx, false)
 
 	return id, nil
@@ -215,7 +219,6 @@ func (s *LinearState) Rem(ctx *Context, id string) (bool, error) {
 
 func (s *LinearState) rem(ctx *Context, id string, lock bool) (bool, error) {
 	Log(DEBUG, ctx, "LinearState.rem", "id", id)
-	delete(s.cachedRules, id)
 	_, err := s.store.Remove(ctx, s.Name, []byte(id))
 	// ToDo: Consider what's returned.
 	if err != nil {
@@ -228,6 +231,7 @@ func (s *LinearState) rem(ctx *Context, id string, lock bool) (bool, error) {
 		s.slock(ctx, false)
 		defer s.sunlock(ctx, false)
 	}
+	s.uncacheRule(id)
 	_, had := s.Facts[id]
 	if had {
 		Log(DEBUG, ctx, "LinearState.Rem", "found", id)
@@ -345,11 +349,17 @@ func (s *LinearState) FindRules(ctx *Context, event Map) (map[string]Map, error)
 }
 
 func (s *LinearState) doFindRules(ctx *Context, event Map) (map[string]Map, error) {
+	s.slock(ctx, true)
+	defer s.sunlock(ctx, true)
+	return s.findRules(ctx, event)
+}
+
+// findRules does the work for doFindRules.  Assumes we have (at
+// least) a read lock.
+func (s *LinearState) findRules(ctx *Context, event Map) (map[string]Map, error) {
 	// We could call Search(), but we'll try to be a bit
 	// more efficient here.
 	acc := make(map[string]Map)
-	s.slock(ctx, true)
-	defer s.sunlock(ctx, true)
 	now := time.Now().UTC().Unix()
 	for id, rf := range s.Facts {
 		rule, given := rf.M["rule"]
@@ -413,7 +423,12 @@ func (s *LinearState) FindCachedRules(ctx *Context, event Map) (map[string]*Rule
 	timer := NewTimer(ctx, "LinearState.FindCachedRules")
 	defer timer.Stop()
 
-	rules, err := s.doFindRules(ctx, event)
+	// Keep the read lock until the cache has been consulted (and
+	// perhaps filled).  See IndexedState.FindCachedRules.
+	s.slock(ctx, true)
+	defer s.sunlock(ctx, true)
+
+	rules, err := s.findRules(ctx, event)
 	if err != nil {
 		return nil, err
 	}
@@ -421,18 +436,35 @@ func (s *LinearState) FindCachedRules(ctx *Context, event Map) (map[string]*Rule
 
 	acc := make(map[string]*Rule)
 	for id, r := range rules {
-		if _, isCached := s.cachedRules[id]; isCached {
-			acc[id] = s.cachedRules[id]
-		} else {
-			rule, err := RuleFromMap(ctx, r)
-			if err != nil {
+		s.cacheMu.Lock()
+		rule, isCached := s.cachedRules[id]
+		s.cacheMu.Unlock()
+		if !isCached {
+			var err error
+			if rule, err = RuleFromMap(ctx, r); err != nil {
 				return nil, err
 			}
-			acc[id] = rule
+			// Set the id before the rule is shared.
+			rule.Id = id
+			s.cacheMu.Lock()
 			s.cachedRules[id] = rule
+			s.cacheMu.Unlock()
 		}
+		acc[id] = rule
 	}
 	return acc, nil
+}
+
+func (s *LinearState) uncacheRule(id string) {
+	s.cacheMu.Lock()
+	delete(s.cachedRules, id)
+	s.cacheMu.Unlock()
+}
+
+func (s *LinearState) uncacheRules() {
+	s.cacheMu.Lock()
+	s.cachedRules = make(map[string]*Rule)
+	s.cacheMu.Unlock()
 }
 
 func (s *LinearState) Clear(ctx *Context) error {
@@ -441,7 +473,7 @@ func (s *LinearState) Clear(ctx *Context) error {
 	// Maybe protect the store (above), too.
 	s.slock(ctx, false)
 	s.Facts = make(map[string]RawFact)
-	s.cachedRules = make(map[string]*Rule)
+	s.uncacheRules()
 	s.sunlock(ctx, false)
 	return err
 }
@@ -452,7 +484,7 @@ func (s *LinearState) Delete(ctx *Context) error {
 	// Maybe protect the store (above), too.
 	s.slock(ctx, false)
 	s.Facts = make(map[string]RawFact)
-	s.cachedRules = make(map[string]*Rule)
+	s.uncacheRules()
 	s.sunlock(ctx, false)
 	return err
 }
